@@ -223,6 +223,16 @@ def run_history(ctx, deck, seed, nops, model_every=8):
         prs = Presentation(io.BytesIO(td))
         label += f"(thinned variant, {nrem} removed)" if deck else f"generated-deck(thinned, {nrem} removed)"
         ctx.count("thinned-start-decks")
+    if rng.random() < 0.3:
+        # ... and with optional elements ADDED that the deck did not have (trailing extension lists, timing, transition,
+        # children taken from PowerPoint-authored parts), every part still schema-valid
+        from harness.props.c12 import enrich
+        b = io.BytesIO()
+        prs.save(b)
+        ed, nadd = enrich(b.getvalue(), rng)
+        prs = Presentation(io.BytesIO(ed))
+        label += f"(enriched variant, {nadd} added)"
+        ctx.count("enriched-start-decks")
     pkg = prs.part.package
     w = Watch(ctx, label)
     model_lines = []
@@ -449,6 +459,47 @@ def sweep(ctx, reps):
                 w.check(prs.part.package, desc, outcome, history)
 
 
+def method_sweep(ctx, reps):
+    """every structural operation of the table, several times each, on a generated deck ENRICHED with the optional
+    elements other producers write (trailing extension lists, p:timing, p:transition, ... on every slide): hand-written
+    insertion code meets siblings the library itself never writes"""
+    from pptx import Presentation
+    from harness.props.c09 import build_deck
+    from harness.props.c12 import enrich
+
+    rng = ctx.rng
+    for rep in range(reps):
+        b = io.BytesIO(); build_deck().save(b)
+        ed, nadd = enrich(b.getvalue(), rng, per_part=60)
+        prs = Presentation(io.BytesIO(ed))
+        w = Watch(ctx, f"generated-deck(enriched, {nadd} added)#{rep}")
+        w.check(prs.part.package, "<open>", "ok", [])
+        history = []
+        fns = [f for f, _ in oplab.METHODS]
+        rng.shuffle(fns)
+        for fn in fns:
+            for _k in range(3):
+                try:
+                    world = oplab.discover(prs)
+                except Exception as e:  # noqa
+                    ctx.count(f"discover-raised:{type(e).__name__}")
+                    break
+                try:
+                    desc, outcome = fn(rng, world), "ok"
+                except oplab.Skip:
+                    continue
+                except oplab.REJECT as e:
+                    desc, outcome = fn.__name__, f"rejected:{type(e).__name__}"
+                except Exception as e:  # noqa
+                    tb = traceback.extract_tb(e.__traceback__)[-1]
+                    desc, outcome = f"<{fn.__name__} raised {type(e).__name__} at {tb.filename.split('/')[-1]}:{tb.lineno}>", "raised"
+                    ctx.count(f"undocumented-exception:{type(e).__name__}@{tb.filename.split('/')[-1]}:{tb.lineno}")
+                history.append(desc)
+                ctx.count("method-sweep-" + outcome.split(":")[0])
+                ctx.case(key=("method-sweep", fn.__name__, outcome.split(":")[0], rep))
+                w.check(prs.part.package, desc, outcome, history)
+
+
 def histories(ctx, n_seq, nops):
     decks = [None, None] + common.corpus_decks()
     lines = []
@@ -475,12 +526,14 @@ def correspond(ctx):
     schema_model_tie(ctx, 500 if ctx.quick else 6000)
     probe_geometry(ctx)
     sweep(ctx, 2 if ctx.quick else 12)
+    method_sweep(ctx, 3 if ctx.quick else 20)
     histories(ctx, 120 if ctx.quick else 1500, 25 if ctx.quick else 40)
 
 
 def search(ctx, hints):
     probe_geometry(ctx)
     sweep(ctx, 6)
+    method_sweep(ctx, 8)
     histories(ctx, 300 if ctx.quick else 2500, 30)
 
 
